@@ -390,7 +390,15 @@ pub enum BExpr {
     InList { col: String, ty: ColType, list: Vec<Val>, negated: bool },
     /// boolean column used as a predicate, optionally `IS TRUE` / `IS FALSE`
     BoolCol { col: String, form: BoolForm },
-    LikePrefix { col: String, prefix: String },
+    /// `col [NOT] LIKE|ILIKE 'prefix%'`
+    LikePrefix {
+        col: String,
+        prefix: String,
+        #[serde(default)]
+        negated: bool,
+        #[serde(default)]
+        ci: bool,
+    },
     Not(Box<BExpr>),
     And(Box<BExpr>, Box<BExpr>),
     Or(Box<BExpr>, Box<BExpr>),
@@ -475,7 +483,9 @@ impl BExpr {
                 BoolForm::IsNotTrue => format!("{} IS NOT TRUE", quote_ident(col)),
                 BoolForm::IsNotFalse => format!("{} IS NOT FALSE", quote_ident(col)),
             },
-            BExpr::LikePrefix { col, prefix } => format!("{} LIKE '{}%'", quote_ident(col), prefix.replace('\'', "''")),
+            BExpr::LikePrefix { col, prefix, negated, ci } => {
+                format!("{} {}{} '{}%'", quote_ident(col), if *negated { "NOT " } else { "" }, if *ci { "ILIKE" } else { "LIKE" }, prefix.replace('\'', "''"))
+            }
             BExpr::Not(a) => format!("NOT ({})", a.sql()),
             BExpr::And(a, b) => format!("({}) AND ({})", a.sql(), b.sql()),
             BExpr::Or(a, b) => format!("({}) OR ({})", a.sql(), b.sql()),
@@ -526,8 +536,11 @@ impl BExpr {
                     BoolForm::IsNotFalse => Some(v != Some(false)),
                 }
             }
-            BExpr::LikePrefix { col, prefix } => match get(col) {
-                Val::S(s) => Some(s.as_bytes().starts_with(prefix.as_bytes())),
+            BExpr::LikePrefix { col, prefix, negated, ci } => match get(col) {
+                Val::S(s) => {
+                    let m = if *ci { s.to_lowercase().starts_with(&prefix.to_lowercase()) } else { s.as_bytes().starts_with(prefix.as_bytes()) };
+                    Some(m != *negated)
+                }
                 _ => None,
             },
             BExpr::Not(a) => a.eval(get).map(|x| !x),
@@ -600,6 +613,8 @@ pub fn eval_row(e: &BExpr, schema: &TableSchema, row: &Row) -> Option<bool> {
 // seeds -> values
 
 thread_local! {
+    /// when set (C16 only), comparison literals for the narrow integer types may lie just outside the column type's range
+    pub static WIDE_LITS: std::cell::Cell<bool> = const { std::cell::Cell::new(false) };
     /// when set, float columns also receive NaN and -0.0 (only for checks whose oracle is metamorphic)
     pub static NAN_MODE: std::cell::Cell<bool> = const { std::cell::Cell::new(false) };
 }
